@@ -125,6 +125,18 @@ def side_conditions(words):
     return None
 
 
+def huge_bound(words):
+    consts = dict(CONSTS, **declared_consts(words))
+    for a, ua, b, ub in intervals_of(words):
+        for w, u in ((a, ua or ub or 's'), (b, ub or ua or 's')):
+            try:
+                if (Fr(consts[w]) if w in consts else lit_value(w)) * U[u] > 10 ** 6 * U['s']:
+                    return True
+            except Exception:
+                pass
+    return False
+
+
 def first_evaluation(spec, words):
     ids = sorted({w.split('.')[0] for w in words if grammar.token_type(w) == 'Identifier'})
     d = {'time': [0, 1, 2]}
@@ -170,6 +182,8 @@ def judge_words(words, text=None, skipped_char=False):
     sc = side_conditions(words)
     if sc:
         return 'parse() succeeded although %s' % sc, 'accepted bad side condition'
+    if huge_bound(words):
+        return None, 'accepted'       # a window of more than a million samples: how long its evaluation takes is not the parser's business
     try:
         with time_limit(5):
             k2, v2 = first_evaluation(spec, words)
@@ -202,6 +216,10 @@ def shards(tier):
 
 # every literal form of the lexer grammar: decimal, hex, binary, underscores, reals with and without exponent
 LITERALS = ['0', '7', '10', '1_000', '1__0', '0x10', '0X1f', '0xA_b', '0b11', '0B1_0', '1.5', '5.', '.5', '1e1', '1E+2', '1.5e-1', '.5e1', '1_0.2_5', '2e0']
+
+
+# literals of absurd magnitude or length (more digits than the interpreter converts between int and str by default)
+HUGE_LITERALS = ['1e400', '1e-400', '1e5000', '1e-5000', '9' * 4400, '0x' + 'f' * 4000, '1.' + '0' * 4400 + '1', '0b' + '1' * 15000]
 
 
 SOLO = ('(', ')', '[', ']', ',', ':', ';')     # tokens that never merge with a neighbour: white space around them is optional
@@ -407,7 +425,7 @@ def run_shard(shard, tier, res):
                     one(['from', M, 'import', N] + body)
         res.sample({'text': 'const int k = 2.5 out = x >= k', 'verdict': 'derivable: must parse or be refused with RTAMTException'}, 1)
     elif shard['mode'] == 'literals':
-        for lit in LITERALS:
+        for lit in LITERALS + HUGE_LITERALS:
             for words in (['out', '=', 'x', '>=', lit], ['out', '=', lit], ['out', '=', 'abs', '(', 'x', '-', lit, ')', '<=', lit],
                           ['out', '=', 'once', '[', '0', ',', lit, ']', 'x'], ['out', '=', 'always', '[', lit, ':', '1000', ']', 'x'],
                           ['out', '=', 'x', 'since', '[', lit, 's', ',', lit, 's', ']', 'y'], ['out', '=', 'pow', '(', 'x', ',', lit, ')', '>=', '0']):
